@@ -10,7 +10,7 @@ import sys
 import time
 
 VERIF = os.path.dirname(os.path.dirname(os.path.abspath(__file__)))
-REPO = "/repo"
+REPO = os.environ.get("RXV_REPO", "/repo")   # a scratch copy when a seeded change is tried in isolation
 COQ = os.path.join(VERIF, "coq")
 OCAML = os.path.join(VERIF, "ocaml")
 HARNESS = os.path.join(VERIF, "harness")
@@ -436,6 +436,11 @@ def correspond(rep, name, cases, theorem, compare_model=True, impl_timeout=900):
                 dis += 1
                 rep.fail("model differs from implementation", {"case": text, "impl": i, "model": m, "tags": tags,
                                                                "correspondence": theorem, "failing_input_found": False}, {})
+        elif o is not None and o.startswith("nocorr:"):
+            # the tie to the model is broken on this case; no property predicate is violated by it
+            dis += 1
+            rep.fail("model differs from implementation: " + o[7:],
+                     {"case": text, "impl": i, "oracle": o, "tags": tags, "correspondence": theorem, "failing_input_found": False}, tags)
         elif o is not None and o != "ok":
             rep.fail("the implementation's trace violates the specification: " + o,
                      {"case": text, "impl": i, "model": m, "oracle": o, "tags": tags,
@@ -444,7 +449,7 @@ def correspond(rep, name, cases, theorem, compare_model=True, impl_timeout=900):
             rep.fail("implementation differs from the specification on this input",
                      {"case": text, "impl": i, "spec": sp, "model": m, "tags": tags,
                       "theorem": theorem, "failing_input_found": True}, tags)
-        elif compare_model and i != m:
+        elif compare_model and m != "-" and i != m:      # "-": this case kind has no model trace, the oracle is its tie
             dis += 1
             rep.fail("model differs from implementation" + ("" if sp == "UNSPECIFIED" else " although both meet the specification's observation"),
                      {"case": text, "impl": i, "spec": sp, "model": m, "tags": tags,
